@@ -95,8 +95,17 @@ ScanResult Theo::scan(std::map<FileName, FileContent> files, FileName main) {
     }
     res.push_back(t);
   }
-  res.push_back(
-      Theo::Token{Theo::Token::T_EOF, "EOF", res.back().file, res.back().line});
+  if (res.empty()) {
+    // nothing was scanned (absent or empty main file): there is no last
+    // token to take the position from
+    bool have_main = files.contains(main);
+    res.push_back(Theo::Token{Theo::Token::T_EOF, "EOF",
+                              have_main ? main : FileName("-"),
+                              have_main ? 1 : -1});
+  } else {
+    res.push_back(Theo::Token{Theo::Token::T_EOF, "EOF", res.back().file,
+                              res.back().line});
+  }
   return {res, errors};
 }
 
